@@ -1,0 +1,43 @@
+# Licensed to Elasticsearch B.V. under one or more contributor
+# license agreements. See the NOTICE file distributed with
+# this work for additional information regarding copyright
+# ownership. Elasticsearch B.V. licenses this file to you under
+# the Apache License, Version 2.0 (the "License"); you may
+# not use this file except in compliance with the License.
+# You may obtain a copy of the License at
+#
+# 	http://www.apache.org/licenses/LICENSE-2.0
+#
+# Unless required by applicable law or agreed to in writing,
+# software distributed under the License is distributed on an
+# "AS IS" BASIS, WITHOUT WARRANTIES OR CONDITIONS OF ANY
+# KIND, either express or implied.  See the License for the
+# specific language governing permissions and limitations
+# under the License.
+
+"""
+Event trace of the load driver for external verification. A no-op unless the environment variable ``ESRALLY_VERIF_TRACE`` names a
+directory: then every process appends one JSON object per event to ``<dir>/<role>-<pid>.ndjson`` with a per-process sequence number.
+"""
+import json
+import os
+
+_out = None  # (pid, role, file, seq) of this process; actor processes are forked, so the pid is checked on every call
+
+
+def enabled():
+    return bool(os.environ.get("ESRALLY_VERIF_TRACE"))
+
+
+def emit(role, ev, **fields):
+    directory = os.environ.get("ESRALLY_VERIF_TRACE")
+    if not directory:
+        return
+    global _out
+    pid = os.getpid()
+    if _out is None or _out[0] != pid or _out[1] != role:
+        _out = [pid, role, open(os.path.join(directory, f"{role}-{pid}.ndjson"), "a", encoding="utf-8"), 0]
+    _out[3] += 1
+    fields.update(ev=ev, seq=_out[3])
+    _out[2].write(json.dumps(fields, sort_keys=True) + "\n")
+    _out[2].flush()
